@@ -12,7 +12,7 @@ use crate::refimpl::sec::sec::{self, Cipher, Who};
 use crate::refimpl::strict;
 use crate::refimpl::writer::{self, WFile, WRevision};
 use crate::viol;
-use lopdf::Document;
+use lopdf::{Document, Object};
 use proptest::prelude::*;
 use serde::{Deserialize, Serialize};
 use serde_json::Value;
@@ -483,6 +483,27 @@ pub fn check_b(case: &Case) -> Verdict {
         }
         if doc.trailer.has(b"Encrypt") {
             return Err(ctx(viol!("lopdf-plaintext-differs", "trailer still has /Encrypt after decrypting")));
+        }
+        // the state decrypt() leaves behind is what an application protects the edited document with again: the
+        // result must open in the reference handler with both passwords like any other lopdf-encrypted document.
+        // (indirect stream lengths are made direct first: stream lengths change under encryption and the holder
+        // objects are none of the handler's business)
+        if let Some(state) = doc.encryption_state.clone() {
+            let mut again = doc.clone();
+            for (id, o) in again.objects.iter_mut() {
+                if let Object::Stream(st) = o {
+                    let _ = id;
+                    st.dict.set("Length", st.content.len() as i64);
+                }
+            }
+            no_panic("encrypt (state stored by decrypt)", || again.encrypt(&state))?
+                .map_err(|e| ctx(viol!("encrypt-error", "encrypting again with the state decrypt() stored fails: {:?}", e)))?;
+            let enc_id = again.trailer.get(b"Encrypt").and_then(|o| o.as_reference()).map_err(|_| ctx(viol!("encrypt-error", "no /Encrypt reference after encrypting again")))?;
+            let objects: BTreeMap<(u32, u16), AObj> = again.objects.iter().map(|(k, v)| (*k, AObj::from_object(v))).collect();
+            let Some(AObj::Dict(ed)) = objects.get(&enc_id).cloned() else { return Err(ctx(viol!("encrypt-error", "encryption dictionary missing after encrypting again"))) };
+            let info = parse_encrypt(&ed).map_err(|e| ctx(viol!("ref-cannot-interpret", "after encrypting again with the stored state: {}\n{:?}", e, ed)))?;
+            open_and_compare(&info, cfg, &cdoc, &objects, enc_id, &format!("opened with the {} password, encrypted again with the stored state", who)).map_err(ctx)?;
+            rep.label("re-encrypted-with-stored-state");
         }
     }
     labels(cfg, &cdoc, &mut rep);
